@@ -314,8 +314,9 @@ def c07(pid, tier, seed, selftest=False):
     tpl, tres = st.get_templates(pid)
     rep.add_model("terms", tres, "byte-layout templates")
     thorough = tier == "thorough"
+    # ProjIndInv: every reachable state, projected to integers, satisfies the invariant Apalache proves inductive
     cs_.check_model(rep, pid, "enc-mc", "MC_EncLoop", st.enc_constants(cs=2, maxlen=7 if thorough else 5, hdr="HdrSmall", faults=1),
-                    st.ENC_INVARIANTS, cs_.ENC_ACTIONS)
+                    st.ENC_INVARIANTS + ["ProjIndInv"], cs_.ENC_ACTIONS)
     n = 4 if thorough else 3
     res = run_tlc(pid, "fresh-mc", "Fresh", fresh_cfg(n, 2, False, ["AllFresh", "NonceOnce", "Emit"]), workers=1, timeout=300)
     rep.add_model("fresh-mc", res, "histories of %d operations: AllFresh, NonceOnce" % n)
@@ -330,6 +331,8 @@ def c07(pid, tier, seed, selftest=False):
         for v in ("CounterStuck", "CounterSkips"):
             cs_.negative_variant(rep, pid, "neg-" + v, "MC_EncLoop", st.enc_constants(cs=2, maxlen=5, hdr="HdrSmall", variant=v),
                                  st.ENC_INVARIANTS, ["NonceOnce", "NonceIsIndex", "LegalOutput"])
+        from vlib import apalache_inductive
+        apalache_inductive(rep, pid, "EncLoopInd")
     hists = [r["ops"] for r in res.replays]
     # shorter histories are prefixes of these; add a few long repeated-identical ones
     hists += [["kenc"] * 6, ["penc"] * 6, ["generate"] * 5, ["generate"] + ["changepass"] * 5]
